@@ -56,6 +56,7 @@ class Summ:
             raise Incomplete("generator does not take (storage list, operand list)")
         self.role = {ps[0]: "S", ps[1]: "T"}
         self.lists: Dict[str, List[List[Seg]]] = {}
+        self.vars: Dict[str, List[Seg]] = {}          # plain named index lists (`row_indices = []`)
         self.dicts: Dict[str, Tuple[str, list]] = {}
         self.env: Dict[str, object] = {}
         self.counters: Set[str] = set()
@@ -86,7 +87,7 @@ class Summ:
         return tuple(l[2] for l in loops if l[0] == "pass")
 
     def fresh(self, node, loops) -> Expr:
-        sid = (getattr(node, "lineno", 0), getattr(node, "col_offset", 0), self.passes(loops))
+        sid = (id(node), self.passes(loops))          # one index (family) per `next(counter)` occurrence and pass; spliced copies of a helper are distinct occurrences
         return ("fam", sid) if self.elem(loops) else ("sym", sid)
 
     def emit(self, lst: List[Seg], e: Expr, loops, facts):
@@ -141,7 +142,50 @@ class Summ:
             return self.env[n.id]
         return None
 
+    def role_comp(self, comp) -> bool:
+        return isinstance(comp, (ast.ListComp, ast.GeneratorExp)) and len(comp.generators) == 1 and isinstance(comp.generators[0].iter, ast.Name) \
+            and comp.generators[0].iter.id in self.role and not comp.generators[0].ifs and isinstance(comp.generators[0].target, ast.Name)
+
+    def emit_comp(self, lr: List[Seg], comp, loops, facts):
+        g = comp.generators[0]
+        lp = loops + [("elem", src(g.target), self.role[g.iter.id], id(comp))]
+        self.emit(lr, self.item(comp.elt, lp, facts), lp, facts)
+
+    def extend_with(self, lr: List[Seg], val, loops, facts) -> bool:
+        """lr.extend(val) / lr += val for the value forms the generators use"""
+        import copy as _copy
+        if self.role_comp(val):
+            self.emit_comp(lr, val, loops, facts)
+            return True
+        if isinstance(val, (ast.List, ast.Tuple)):
+            for e in val.elts:
+                self.emit(lr, self.item(e, loops, facts), loops, facts)
+            return True
+        other = self.list_ref(val)
+        if other is not None:
+            for sg in other:
+                c = _copy.copy(sg)
+                c.items = list(sg.items)
+                c.loop = ("copied", id(sg), id(lr), len(lr))     # never merged with a later emission
+                lr.append(c)
+            return True
+        return False
+
     def item(self, node, loops, facts) -> Expr:
+        if isinstance(node, ast.IfExp):
+            t, neg = node.test, False
+            if isinstance(t, ast.UnaryOp) and isinstance(t.op, ast.Not):
+                t, neg = t.operand, True
+            el = self.elem(loops)
+            if isinstance(t, ast.Compare) and len(t.ops) == 1 and isinstance(t.ops[0], (ast.In, ast.NotIn)) and isinstance(t.comparators[0], ast.Name) \
+                    and t.comparators[0].id in self.role and el is not None and src(t.left) == el[1]:
+                pos = isinstance(t.ops[0], ast.In) != neg
+                l = self.role[t.comparators[0].id]
+                if l == el[2]:
+                    return self.item(node.body if pos else node.orelse, loops, facts)
+                f_b, f_o = ("in" if pos else "notin", l), ("notin" if pos else "in", l)
+                return ("cond", (f_b, self.item(node.body, loops, facts | {f_b})), (f_o, self.item(node.orelse, loops, facts | {f_o})))
+            raise Incomplete("conditional index " + src(node.test)[:40])
         if isinstance(node, ast.Name):
             v = self.env.get(node.id)
             if isinstance(v, tuple) and v and v[0] in ("fam", "sym"):
@@ -167,6 +211,8 @@ class Summ:
         raise Incomplete("index expression " + src(node)[:40])
 
     def list_ref(self, node) -> Optional[List[Seg]]:
+        if isinstance(node, ast.Name) and node.id in self.vars:
+            return self.vars[node.id]
         if isinstance(node, ast.Subscript) and isinstance(node.value, ast.Name) and node.value.id in self.lists:
             k = self.const_int(node.slice)
             if k is not None and -len(self.lists[node.value.id]) <= k < len(self.lists[node.value.id]):
@@ -186,6 +232,35 @@ class Summ:
             if isinstance(val, ast.List) and val.elts and all(isinstance(e, ast.List) and not e.elts for e in val.elts) and isinstance(tgt, ast.Name):
                 self.lists[tgt.id] = [[] for _ in val.elts]
                 return
+            if isinstance(tgt, ast.Name) and isinstance(val, ast.List) and not val.elts:
+                self.vars[tgt.id] = []
+                return
+            if isinstance(tgt, ast.Name) and isinstance(val, ast.Name) and val.id in self.vars:
+                self.vars[tgt.id] = self.vars[val.id]           # an alias: both names denote the same list
+                return
+            if isinstance(tgt, ast.Name) and self.role_comp(val) and isinstance(val, ast.ListComp):
+                new: List[Seg] = []
+                self.emit_comp(new, val, loops, facts)
+                self.vars[tgt.id] = new
+                return
+            if isinstance(tgt, ast.Name) and isinstance(val, ast.List) and val.elts and not any(isinstance(e, ast.List) for e in val.elts):
+                new2: List[Seg] = []
+                if self.extend_with(new2, val, loops, facts):
+                    self.vars[tgt.id] = new2
+                    return
+            if isinstance(tgt, ast.Name) and isinstance(val, ast.BinOp) and isinstance(val.op, ast.Add):
+                # a + b of index lists
+                new3: List[Seg] = []
+                if all(self.extend_with(new3, side, loops, facts) for side in (val.left, val.right)):
+                    self.vars[tgt.id] = new3
+                    return
+            # "".join(chr(97 + i) for i in <named list>)
+            if isinstance(tgt, ast.Name) and isinstance(val, ast.Call) and isinstance(val.func, ast.Attribute) and val.func.attr == "join" and len(val.args) == 1 \
+                    and isinstance(val.args[0], (ast.ListComp, ast.GeneratorExp)) and len(val.args[0].generators) == 1 and "chr(" in src(val.args[0].elt):
+                lr0 = self.list_ref(val.args[0].generators[0].iter)
+                if lr0 is not None:
+                    self.env[tgt.id] = ("fmtvar", lr0)
+                    return
             if isinstance(val, ast.Call) and (dotted(val.func) or "").endswith("count") and isinstance(tgt, ast.Name):
                 start = 0
                 self.counters.add(tgt.id)
@@ -262,6 +337,28 @@ class Summ:
                 self.dicts[recv.value.id][1].append((el[2], facts, self.item(arg, loops, facts)))
                 return
             raise Incomplete("append " + src(s)[:50])
+        if isinstance(s, ast.Expr) and isinstance(s.value, ast.Call) and isinstance(s.value.func, ast.Attribute) and s.value.func.attr == "extend" and len(s.value.args) == 1 \
+                and not isinstance(s.value.args[0], (ast.List, ast.Tuple)) and self.list_ref(s.value.func.value) is not None:
+            if self.extend_with(self.list_ref(s.value.func.value), s.value.args[0], loops, facts):
+                return
+            raise Incomplete("extend " + src(s)[:50])
+        if isinstance(s, ast.AugAssign) and isinstance(s.op, ast.Add) and not isinstance(s.value, (ast.List, ast.Tuple)) and self.list_ref(s.target) is not None:
+            if self.extend_with(self.list_ref(s.target), s.value, loops, facts):
+                return
+            raise Incomplete("augmented assignment " + src(s)[:50])
+        if isinstance(s, ast.Expr) and isinstance(s.value, ast.Call) and isinstance(s.value.func, ast.Attribute) and s.value.func.attr == "extend" and len(s.value.args) == 1 \
+                and isinstance(s.value.args[0], (ast.List, ast.Tuple)):
+            # x.extend([a, b]) == x.append(a); x.append(b)
+            for e in s.value.args[0].elts:
+                one = ast.Expr(value=ast.Call(func=ast.Attribute(value=s.value.func.value, attr="append", ctx=ast.Load()), args=[e], keywords=[]))
+                self.stmt(ast.copy_location(one, s), loops, facts)
+            return
+        if isinstance(s, ast.AugAssign) and isinstance(s.op, ast.Add) and isinstance(s.value, (ast.List, ast.Tuple)):
+            # x += [a, b]
+            for e in s.value.elts:
+                one = ast.Expr(value=ast.Call(func=ast.Attribute(value=s.target, attr="append", ctx=ast.Load()), args=[e], keywords=[]))
+                self.stmt(ast.copy_location(one, s), loops, facts)
+            return
         if isinstance(s, ast.For):
             it = s.iter
             if isinstance(it, ast.Call) and src(it.func) == "range" and len(it.args) == 1 and self.const_int(it.args[0]) is not None:
@@ -314,13 +411,16 @@ class Summ:
             if not isinstance(v, ast.JoinedStr):
                 raise Incomplete("return value is not an f-string of the formatted lists")
             txt = ""
-            order: List[Tuple[str, int]] = []
+            order: List[List[Seg]] = []
             for part in v.values:
                 if isinstance(part, ast.Constant):
                     txt += str(part.value)
                 elif isinstance(part, ast.FormattedValue) and isinstance(part.value, ast.Name) and isinstance(self.env.get(part.value.id), tuple) and self.env[part.value.id][0] == "fmtidx":
                     _, base, k = self.env[part.value.id]
-                    order.append((base, k))
+                    order.append(self.lists[base][k])
+                    txt += "{}"
+                elif isinstance(part, ast.FormattedValue) and isinstance(part.value, ast.Name) and isinstance(self.env.get(part.value.id), tuple) and self.env[part.value.id][0] == "fmtvar":
+                    order.append(self.env[part.value.id][1])
                     txt += "{}"
                 elif isinstance(part, ast.FormattedValue) and isinstance(part.value, ast.Subscript) and isinstance(part.value.value, ast.Name):
                     nm = part.value.value.id
@@ -328,7 +428,7 @@ class Summ:
                     k = self.const_int(part.value.slice)
                     if base not in self.lists or k is None:
                         raise Incomplete("unrecognised piece of the returned string")
-                    order.append((base, k))
+                    order.append(self.lists[base][k])
                     txt += "{}"
                 else:
                     raise Incomplete("unrecognised piece of the returned string")
@@ -337,7 +437,7 @@ class Summ:
             lhs, rhs = txt.split("->")
             if rhs != "{}" or lhs.replace("{}", "").strip(",") != "" or lhs.count("{}") != lhs.count(",") + 1:
                 raise Incomplete(f"returned string shape `{txt}`")
-            self.result = ([self.lists[b][k] for b, k in order[:-1]], self.lists[order[-1][0]][order[-1][1]])
+            self.result = (order[:-1], order[-1])
             return
         raise Incomplete("statement " + src(s)[:50])
 
@@ -479,9 +579,16 @@ def summarise(fi: FuncInfo, repo: Optional[Repo] = None):
             return False
         t = ast.unparse(h.orig or h.node)
         return "chr(" in t and "next(" not in t and len(h.params) == 1
-    s = Summ(fi.orig or fi.node, is_fmt)
-    operands, output = s.run()
-    return canonical(operands, output)
+    # the body with new private helpers spliced in first (index-drawing helpers), the function as written second (formatting helpers)
+    bodies = [fi.node] + ([fi.orig] if getattr(fi, "orig", None) is not None and fi.orig is not fi.node else [])
+    last: Optional[Incomplete] = None
+    for b in bodies:
+        try:
+            operands, output = Summ(b, is_fmt).run()
+            return canonical(operands, output)
+        except Incomplete as ex:
+            last = last or ex
+    raise last
 
 
 @rule("ESCGEN")
